@@ -57,6 +57,9 @@ func (c *C14Config) runCLI(progFile bool, stdin bool, out string, prog string, s
 		args = append(args, "-o", "out.json")
 	case "MISSINGDIR":
 		args = append(args, "-o", "nodir/out.json")
+	case "DEVFULL":
+		// the file can be created but every write to it fails
+		args = append(args, "-o", "/dev/full")
 	}
 	if progFile {
 		files["prog.jqawk"] = []byte(prog)
@@ -180,6 +183,8 @@ func c14Check(c *C14Config) string {
 			wantOut += lib.RootJSON
 		case c.Out == "MISSINGDIR":
 			wantExit = 1
+		case c.Out == "DEVFULL" && len(lib.RootJSON) > 0:
+			wantExit = 1
 		}
 	}
 	if main.stdout != wantOut {
@@ -271,6 +276,37 @@ func genC14(t *rapid.T) (*C14Config, []string) {
 	for i := range c.Files {
 		c.Files[i].Name = fmt.Sprintf("in%d.json", i)
 	}
+	// now and then an input that is not clean JSON text: the binary must treat the
+	// bytes exactly as the library does, whether they come from a file or from stdin
+	if rapid.IntRange(0, 7).Draw(t, "hostileinput") == 0 {
+		f := &c.Files[rapid.IntRange(0, len(c.Files)-1).Draw(t, "hostilefile")]
+		how := rapid.SampledFrom([]string{"bom", "bom-only", "nul", "leading-space", "trailing-garbage", "truncated", "empty", "crlf", "trailing-bom"}).Draw(t, "hostilehow")
+		text := strings.Join(f.Docs, "\n")
+		switch how {
+		case "bom":
+			text = "\ufeff" + text
+		case "bom-only":
+			text = "\ufeff"
+		case "nul":
+			text = "\x00" + text
+		case "leading-space":
+			text = " \n\t\r\n" + text + "\n\n "
+		case "trailing-garbage":
+			text += " ]"
+		case "truncated":
+			if len(text) > 1 {
+				text = text[:len(text)-1]
+			}
+		case "empty":
+			text = ""
+		case "crlf":
+			text = strings.ReplaceAll(text, "\n", "\r\n") + "\r\n"
+		case "trailing-bom":
+			text += "\ufeff"
+		}
+		f.Docs = []string{text}
+		labels = append(labels, "hostile-input:"+how)
+	}
 	// selectors for programs that came without
 	if len(c.Sels) == 0 && rapid.IntRange(0, 2).Draw(t, "addsel") == 0 {
 		n := rapid.IntRange(1, 2).Draw(t, "nsel")
@@ -280,7 +316,7 @@ func genC14(t *rapid.T) (*C14Config, []string) {
 	}
 	c.ProgFile = rapid.Bool().Draw(t, "progfile")
 	c.Stdin = len(c.Files) == 1 && rapid.Bool().Draw(t, "stdin")
-	c.Out = rapid.SampledFrom([]string{"", "", "-", "-", "FILE", "FILE", "MISSINGDIR"}).Draw(t, "out")
+	c.Out = rapid.SampledFrom([]string{"", "", "-", "-", "FILE", "FILE", "MISSINGDIR", "DEVFULL"}).Draw(t, "out")
 	if c.Out == "FILE" && rapid.Bool().Draw(t, "outexists") {
 		c.OutExists = true
 		labels = append(labels, "-o-file-exists")
@@ -315,7 +351,7 @@ func genC14(t *rapid.T) (*C14Config, []string) {
 	if c.Stdin {
 		labels = append(labels, "stdin")
 	}
-	if feat >= 2 || c.Missing >= 0 || c.Dir >= 0 || c.Out == "MISSINGDIR" {
+	if feat >= 2 || c.Missing >= 0 || c.Dir >= 0 || c.Out == "MISSINGDIR" || c.Out == "DEVFULL" {
 		labels = append(labels, "nontrivial")
 	}
 	return c, labels
@@ -323,7 +359,7 @@ func genC14(t *rapid.T) (*C14Config, []string) {
 
 func TestC14(t *testing.T) {
 	rec := start(t, "C14", "exploration",
-		"configurations: program given inline or with -f FILE x input on stdin / one named file / 2-3 named files / a missing file / a directory among them x 0-2 -r selectors x -o absent / - / a path (new, or already existing with longer content) / a path in a missing directory; programs and inputs from the C02 / C09 / C07 / C11 generators, including runs ending in each error kind, and degenerate program texts (empty, blank, comment only, empty rules, a bare pattern); each configuration is materialised in a private directory. Oracles: (1) stdout of the binary = stdout of lang.EvalProgram (+ GetRootJson text for -o -), exit status 0 iff the library returned nil and -o could be satisfied, otherwise 1 with a diagnostic; (2) -f == inline; (3) stdin == the same bytes in a named file for programs not printing $file; (4) -o FILE bytes == what -o - prints after the program's own output; (5) file and selector order through the $file / $ traces of the C02 programs; (6) -r E P == BEGINFILE { $ = E } P for one selector and programs without BEGINFILE / ENDFILE rules; (7) missing input, directory input, -o with several inputs, unwritable -o path: non-zero status and a diagnostic, never a stack trace. Non-trivial: >= 2 of {-f, >= 2 files, >= 1 selector, -o} or an error path. distinct = distinct configuration.")
+		"configurations: program given inline or with -f FILE x input on stdin / one named file / 2-3 named files / a missing file / a directory among them x 0-2 -r selectors x -o absent / - / a path (new, or already existing with longer content) / a path in a missing directory / /dev/full (creatable, every write fails); one input in eight is not clean JSON text (byte order mark, NUL, surrounding whitespace, trailing garbage, truncated, empty, CRLF); programs and inputs from the C02 / C09 / C07 / C11 generators, including runs ending in each error kind, and degenerate program texts (empty, blank, comment only, empty rules, a bare pattern); each configuration is materialised in a private directory. Oracles: (1) stdout of the binary = stdout of lang.EvalProgram (+ GetRootJson text for -o -), exit status 0 iff the library returned nil and -o could be satisfied, otherwise 1 with a diagnostic; (2) -f == inline; (3) stdin == the same bytes in a named file for programs not printing $file; (4) -o FILE bytes == what -o - prints after the program's own output; (5) file and selector order through the $file / $ traces of the C02 programs; (6) -r E P == BEGINFILE { $ = E } P for one selector and programs without BEGINFILE / ENDFILE rules; (7) missing input, directory input, -o with several inputs, unwritable -o path: non-zero status and a diagnostic, never a stack trace. Non-trivial: >= 2 of {-f, >= 2 files, >= 1 selector, -o} or an error path. distinct = distinct configuration.")
 	defer rec.Finish()
 	rec.Assume("the library interpreter (lang.EvalProgram + GetRootJson) is the reference for what the binary must print; its own correctness is the subject of the other properties")
 	rec.Replayer("config", func(raw json.RawMessage) error {
